@@ -21,6 +21,9 @@ ASSUMPTIONS = c05.ASSUMPTIONS + ["EHLO keywords are matched case-sensitively by 
 EXHAUSTIVE_PARTS = ["mechanism choice: all 8 subsets of {PLAIN, LOGIN, XOAUTH2} offered x all preference lists of length <= 3"]
 
 
+from tools.lv import hexs
+
+
 def gen(tier, rng):
     n = {"quick": 2500, "search": 8000, "thorough": 40000}[tier]
     cases = smtpgen.auth_cases(rng, n)
@@ -38,6 +41,23 @@ def gen(tier, rng):
                              smtpgen.step(b"221 bye\r\n")]
                     cases.append(smtpgen.client_case("sa"[i % 2], "c.example", "AQ", "a@b.c", ["x@y.z"], b"m", "".join(prefs), "user", "secretpw", steps))
                     i += 1
+    # the transports (SmtpTransport / AsyncSmtpTransport, TLS off) with credentials configured: every subset of advertised
+    # mechanisms x short preference lists; with no usable mechanism the send fails before any credential, MAIL or DATA
+    from tools.props import c06
+    for k in range(4):
+        for offered in itertools.combinations(mechs + ["CRAM-MD5"], k):
+            for prefs in ("P", "L", "X", "PL", "LP", "XP", "PLX"):
+                ehlo = b"250-srv\r\n" + (b"250-SIZE 1000\r\n" if i % 3 == 0 else b"") + (b"250 AUTH " + " ".join(offered).encode() + b"\r\n" if offered else b"250 8BITMIME\r\n")
+                clear = [smtpgen.step(b"220 srv ESMTP\r\n"), smtpgen.step(ehlo)]
+                usable = any(letters.get(o, "?") in prefs for o in offered)
+                if usable:
+                    first = next(p for p in prefs if any(letters.get(o) == p for o in offered))
+                    clear += {"P": [smtpgen.step(b"235 ok\r\n")], "X": [smtpgen.step(b"235 ok\r\n")],
+                              "L": [smtpgen.step(b"334 VXNlcm5hbWU6\r\n"), smtpgen.step(b"334 UGFzc3dvcmQ6\r\n"), smtpgen.step(b"235 ok\r\n")]}[first]
+                clear += c06.SEND_OK
+                cases.append("\t".join(["tls", "sa"[i % 2], "n", "g", "1000", prefs, hexs("user"), hexs("secretpw"), hexs(b"secret-message\r\n"),
+                                        smtpgen.script_field(clear), smtpgen.script_field([])]))
+                i += 1
     cases.append("ctor\tmech")
     cases += urlcred_cases(rng, {"quick": 150, "search": 500, "thorough": 3000}[tier])
     return cases
